@@ -449,6 +449,21 @@ fn check_scan_adaptors(i: u64, r: &mut Report) {
     });
     match res { Ok(b) => bad = b, Err(p) => { r.violation(format!("scan-adaptors|panic|{tag}"), p, case()); return; } }
     if let Some(what) = bad { r.violation(format!("scan-adaptors|{}|{tag}", what.split('(').next().unwrap_or("")), format!("scan({tag}): {what}"), case()); return; }
+    // the iterator underneath every span (and vary_to): values stepped from a start, bounded or not
+    let bits = |v: (f32, Vec2)| (v.0.to_bits(), v.1 .0.map(f32::to_bits));
+    for (len, lim) in [(Some(0u32), 0usize), (Some(1), 1), (Some(7), 7), (None, 12)] {
+        let fresh = || (l0, vec2::<f32, ()>(y0, r1)).vary((0.37f32, vec2(-1.5, 0.25)), len);
+        let all: Vec<_> = fresh().take(lim).map(bits).collect();
+        let res = caught(|| {
+            let mut bad: Option<String> = None;
+            for k in 0..lim + 2 { let g = fresh().nth(k).map(bits); let w = if len.is_none() { fresh().take(k + 1).last().map(bits) } else { all.get(k).cloned() }; if g != w { bad.get_or_insert(format!("vary(.., {len:?}).nth({k}) = {g:?}, repeated next() gives {w:?}")); } }
+            for k in 0..lim + 2 { let g: Vec<_> = fresh().skip(k).take(lim).map(bits).collect(); let w: Vec<_> = if len.is_none() { let mut it = fresh(); for _ in 0..k { it.next(); } it.take(lim).map(bits).collect() } else { all[k.min(all.len())..].to_vec() }; if g != w { bad.get_or_insert(format!("vary(.., {len:?}).skip({k}) differs from repeated next()")); } }
+            let g: Vec<_> = fresh().step_by(3).take(4).map(bits).collect(); let w: Vec<_> = { let mut it = fresh(); let mut v = vec![]; let mut i = 0; while v.len() < 4 { match it.next() { Some(x) => { if i % 3 == 0 { v.push(bits(x)); } i += 1; } None => break } } v }; if g != w { bad.get_or_insert(format!("vary(.., {len:?}).step_by(3) differs from repeated next()")); }
+            if let Some(n) = len { if fresh().count() != n as usize { bad.get_or_insert(format!("vary(.., Some({n})).count() = {}", fresh().count())); } if fresh().last().map(bits) != all.last().cloned() { bad.get_or_insert(format!("vary(.., Some({n})).last() differs")); } let (lo, hi) = fresh().size_hint(); if lo > n as usize || hi.map_or(false, |h| h < n as usize) { bad.get_or_insert(format!("vary(.., Some({n})).size_hint() = ({lo}, {hi:?})")); } }
+            bad
+        });
+        match res { Ok(None) => {} Ok(Some(what)) => { r.violation(format!("scan-adaptors|vary|{len:?}|{tag}"), what, case()); return; } Err(p) => { r.violation(format!("scan-adaptors|panic|{tag}"), p, case()); return; } }
+    }
     if n >= 2 { r.nontrivial(); }
 }
 
